@@ -26,7 +26,7 @@ PROPS = {
         "level_note": "Trusted: as C01. File-level clauses (multiple of ten, filler, record order, counts) are oracle-only in this revision.",
     },
     "C03": {
-        "streams": [],
+        "streams": [("validate", 3000, 40000)],
         "level_text": "Proof: check-digit specification (unique digit making the 3-7-1 sum a multiple of 10, all sums), hash = sum mod 10^10, classification tables (five copies of the credit/debit lists agree, partition the standard codes, agree with CreditOrDebit - regenerated tables, kernel evaluation), and soundness of acceptance: a batch/file accepted by the model of Batch.verify / File.ValidateWith satisfies every clause of the property. The model may over-accept (opaque conjuncts only reject more). Partial for IAT/ADV batches of in-memory files (known finding D6).",
         "level_note": "Trusted: the hand-written validation model mirrors batch.go/file.go (call sequence facts + oracle); direction needed is implementation-accepts => model-accepts, searched by the oracle's independent recomputation on the real code.",
     },
@@ -42,7 +42,7 @@ PROPS = {
     },
     "C04": {
         "props_modules": ["Ach.Props.Layouts", "Ach.Props.C04"],
-        "streams": [("record", 13000, 130000)],
+        "streams": [("record", 13000, 130000), ("validate", 3000, 40000)],
         "level_text": "Proof: single-digit tampering of every protected field class is detected on the validation model - routing digits and check digit by the algebra of the 3-7-1 weights (units mod 10; all 8 positions, all replacements), fixed-width decimal fields by injectivity of digit strings, amounts through the batch total, control/header/file-control fields through the equalities validation tests; for every accepted batch/file. Truncation is not proved (Reader end-of-input checks not modelled): the oracle enumerates every truncation offset and every protected digit x 9 replacements per sampled file on the real Reader.",
         "level_note": "Trusted: validation model of C03 (mirrors Batch.verify/File.ValidateWith), layout facts (which columns are which field). Truncation clause: oracle only.",
     },
@@ -88,7 +88,7 @@ PROPS = {
         "level_note": "Trusted: census is one call level deep and syntactic.",
     },
     "C15": {
-        "streams": [],
+        "streams": [("validate", 3000, 40000)],
         "level_text": "Proof: on the validation model with its option guards exactly as written, acceptance is monotone in the option set for every input and every pair O <= O' (batch and file level); regenerated census of every reference to the 15 relaxation flags in package ach: in acceptance code each is 'if !flag {may reject}' or 'if flag {return nil}' - an inverted or new tightening guard breaks the obligation. Reader-level monotonicity on real texts: oracle over chains and all 2^15 sets on a corpus.",
         "level_note": "Trusted: record-level checks are opaque option-independent conjuncts in the model; their monotonicity is what the guard census stands for.",
     },
